@@ -11,7 +11,14 @@ CFG = dict(
          "(dense, half period, random, boundary values, standing still, just short of a period) so that the "
          "cumulative time crosses 2^32 many times; every order of the file arguments; RAYON_NUM_THREADS 1,2,5,16; "
          "refusals: file of another run, duplicate initial timestamp, same file twice, unknown extension, missing "
-         "file (gap). non-trivial = the binaries accept the run and it has a main event",
+         "file (gap); runs on run numbers with maps and calibration (simulation, 11192) in which 5..12 main events "
+         "carry full simulated-like wire (ADC v3) and pad (PWB chunks, valid CRCs) data of one to four tracks that "
+         "the library reconstructs (classes sim-run-<files>-files-<k>-of-<n>-with-vertex: k of the n such events "
+         "have a vertex, the others are decoded without one), next to each other and between TRG-only, "
+         "undecodable and non-main events: the x, y, z columns the library returns in-process for the same banks "
+         "are part of the case line, the model carries them as the payload of the row, and the printed decimals "
+         "of the real CSV must parse to exactly these f64 bits on the row of that event (empty iff no vertex). "
+         "non-trivial = the binaries accept the run and it has a main event",
     trusted=[
         "hand-written Gallina model of sort_run_files and of the filter/scan row pipeline of both binaries, tied to "
         "analysis/src by differential runs of the real binaries (not by translation)",
@@ -29,8 +36,15 @@ CFG = dict(
                "runs, duplicate initial timestamps and unknown extensions are refused. For all event lists, no bound.",
     level_note="not-a-proof parts: byte-identical output across RAYON_NUM_THREADS is runtime behaviour of rayon "
                "(order preservation of the indexed par_extend is an assumption of the model); it is exercised by the "
-               "harness on every case with 1, 2, 5 and 16 threads (relc19t lines). The vertex/scaler columns are "
-               "compared with what the library returns in-process (relc19l lines), a test. trusted: Coq kernel; "
+               "harness on every case with 1, 2, 5 and 16 threads (relc19t lines), including the runs with "
+               "reconstructable events where each row costs a full reconstruction (rel-threads-sim-*). The "
+               "vertex/scaler columns are payload the row model carries untouched (C19_rows_one_per_main): that "
+               "they equal what the library returns is a test, not a proof: the scaler columns and the vertex "
+               "columns (bit patterns of vertex() computed in-process on the same banks, logged in the case "
+               "line) go through the model into the expected rows, so a dropped, swapped, rounded or displaced "
+               "column is a model-vs-implementation difference, and relc19l compares the whole CSV with the scan "
+               "re-stated over the library. The in-process library is the harness build (--cfg alpha_g_verif, "
+               "opt-level 2), the binaries are the shipped release build. trusted: Coq kernel; "
                "hand-written model; extraction (ExtrOcamlBasic); harness and driver",
     note="the model reproduces the CSV rows of both binaries from the abstract run description in the case line; a "
          "difference is a concrete run (rebuilt from the case line by `vapps obs`) on which a binary departs from it",
